@@ -74,12 +74,12 @@ Lemma is_conn_eq c k l : is_conn c k l = true -> l = Conn c k.
 Proof.
   destruct l; simpl; try discriminate. rewrite andb_true_iff. intros [E H].
   apply Nat.eqb_eq in E. subst.
-  destruct k, k0; try discriminate; try reflexivity.
-  apply Bool.eqb_prop in H. subst. reflexivity.
+  destruct k, k0; try discriminate; try reflexivity;
+    apply Bool.eqb_prop in H; subst; reflexivity.
 Qed.
 
 Lemma is_conn_refl c k : is_conn c k (Conn c k) = true.
-Proof. simpl. rewrite Nat.eqb_refl. destruct k; auto. apply Bool.eqb_reflx. Qed.
+Proof. simpl. rewrite Nat.eqb_refl. destruct k; auto; apply Bool.eqb_reflx. Qed.
 
 Lemma step_disabled s c cn k :
   nth_error (conns s) c = Some cn ->
@@ -94,7 +94,7 @@ Definition serving (p : phase) : bool :=
   | _ => false
   end.
 
-Definition is_writedone (k : clabel) : bool := match k with WriteDone => true | _ => false end.
+Definition is_writedone (k : clabel) : bool := match k with WriteDone | WriteFail => true | _ => false end.
 
 Lemma rbt_no_trig {A} (t g : A -> bool) r : (forall y, t y = false) -> resp_before_trig t g r = true.
 Proof. intros H. induction r as [|z r IH]; simpl; auto. rewrite H. destruct (g z); auto. Qed.
@@ -115,7 +115,8 @@ Proof.
       destruct (ph cn0); simpl in *; try discriminate; reflexivity.
     + intros l Hh. destruct l; simpl in Hh; try discriminate.
       apply andb_true_iff in Hh as [E Hk]. apply Nat.eqb_eq in E. subst.
-      destruct k; try discriminate. apply is_conn_refl.
+      unfold s1_resp.
+      destruct k; try discriminate; rewrite is_conn_refl; auto using orb_true_r.
     + eapply inv_step; eauto.
     + discriminate.
     + exact Hn'.
@@ -147,7 +148,7 @@ Qed.
 (* ---------------- S3: nothing is served after a marked response ------ *)
 
 Definition after_marked (p : phase) : bool :=
-  match p with Writing true | Written | SockClosed | Finished => true | _ => false end.
+  match p with Writing true | Written | SockClosed | Finished | Broken => true | _ => false end.
 
 Lemma exec_marked_last : forall tr s s', Inv s -> run s tr = Some s' -> ok_marked_last tr = true.
 Proof.
@@ -155,7 +156,7 @@ Proof.
   simpl in Hrun. destruct (step s x) as [m|] eqn:Hs; [|discriminate].
   rewrite (IH m s' (inv_step _ _ _ Hi Hs) Hrun), andb_true_r.
   destruct (match x with Conn _ (WriteHead true) => true | _ => false end) eqn:Ex.
-  - destruct x as [|c k| | | | |]; try discriminate. destruct k as [| | | | | | | |mm| | |]; try discriminate.
+  - destruct x as [|c k| | | | |]; try discriminate. destruct k as [| | | | | | | |mm| | | |?|?| |]; try discriminate.
     destruct mm; try discriminate.
     apply after_conn_step in Hs as Hs'. destruct Hs' as (cn & p' & Hn & Hc & Hn').
     apply (never_generic after_marked false c (s3_bad (Conn c (WriteHead true))))
@@ -163,22 +164,22 @@ Proof.
     + intros cl lk p k p'0 _ H HP. cstep_cases H; simpl in *; auto; discriminate.
     + intros s0 cn0 l _ Hn0 HP Ht. simpl in Ht. apply is_conn_eq in Ht. subst.
       eapply step_disabled; eauto. intros cl lk.
-      destruct (ph cn0) as [| | | | | | | |mm|mm| | |]; simpl in *; try discriminate; reflexivity.
+      destruct (ph cn0) as [| | | | | | | |mm|mm| | | |]; simpl in *; try discriminate; reflexivity.
     + eapply inv_step; eauto.
     + discriminate.
     + exact Hn'.
-    + simpl. destruct (ph cn) as [| | | | | | | |mm|mm| | |]; simpl in Hc; try discriminate.
+    + simpl. destruct (ph cn) as [| | | | | | | |mm|mm| | | |]; simpl in Hc; try discriminate.
       destruct mm; simpl in Hc; inversion Hc; reflexivity.
     + exact Hrun.
   - apply forallb_const_true. intros y. destruct x as [|c k| | | | |]; try reflexivity.
-    destruct k as [| | | | | | | |mm| | |]; try reflexivity. destruct mm; try reflexivity; discriminate.
+    destruct k as [| | | | | | | |mm| | | |?|?| |]; try reflexivity. destruct mm; try reflexivity; discriminate.
 Qed.
 
 (* ---------------- S2: closing seen before the decision => marked ----- *)
 
 Definition will_mark (p : phase) : bool :=
   match p with
-  | PreDecide | Decided true | Writing true | Written | SockClosed | Finished => true
+  | PreDecide | Decided true | Writing true | Written | SockClosed | Finished | Broken => true
   | _ => false
   end.
 
@@ -199,7 +200,7 @@ Proof.
         repeat match goal with b : bool |- _ => destruct b end; simpl in *; auto; discriminate.
     + intros s0 cn0 l _ Hn0 HP Ht. simpl in Ht. apply is_conn_eq in Ht. subst.
       eapply step_disabled; eauto. intros cl lk.
-      destruct (ph cn0) as [| | | | | | | |mm|mm| | |]; simpl in *; try discriminate; try reflexivity.
+      destruct (ph cn0) as [| | | | | | | |mm|mm| | | |]; simpl in *; try discriminate; try reflexivity.
       destruct mm; simpl in *; try discriminate; reflexivity.
     + eapply inv_step; eauto.
     + intros _. exact Hclm.
@@ -386,7 +387,8 @@ Proof.
   unfold c07_safe_ok. rewrite !andb_true_iff. intros [[[[[H1 H2] H3] H4] H5] H6].
   repeat split.
   - apply all_between_filter; auto. intros x z Hr. destruct x as [|c k| | | | |]; try discriminate.
-    destruct k; try discriminate. simpl in Hr. apply is_conn_eq in Hr. subst. reflexivity.
+    destruct k; try discriminate. simpl in Hr.
+    apply orb_true_iff in Hr as [Hr|Hr]; apply is_conn_eq in Hr; subst; reflexivity.
   - apply no_triple_filter; auto.
   - apply no_pair_filter; auto.
   - apply no_pair_filter; auto.
